@@ -53,7 +53,7 @@ var profSnap = &Profile{
 	Name: "C04-snap", MinOps: 3, MaxOps: 50, NColls: 2, MemPct: 20, Snaps: true,
 	Kinds: []wk{{OpSet, 26}, {OpSetR, 2}, {OpDel, 10}, {OpFlush, 8}, {OpEvict, 6}, {OpSetColl, 3}, {OpRmColl, 3}, {OpSnap, 11}, {OpSnapClose, 8},
 		{OpSnapRev, 4}, {OpSnapBad, 3}, {OpGet, 3}, {OpGetItem, 2}, {OpVisit, 4}, {OpMin, 1}, {OpClose, 1}, {OpTotals, 1},
-		{OpMax, 1}, {OpExist, 1}, {OpNames, 1}, {OpLen, 1}, {OpBlock, 1}, {OpCopyTo, 1}, {OpDel, 2}},
+		{OpMax, 1}, {OpExist, 1}, {OpNames, 1}, {OpLen, 1}, {OpBlock, 1}, {OpCopyTo, 1}, {OpDel, 2}, {OpWrite, 2}},
 }
 
 var profRange = &Profile{
@@ -90,7 +90,7 @@ var profNames = &Profile{
 }
 
 var profTree = &Profile{
-	Name: "C13-tree", MinOps: 2, MaxOps: 45, NColls: 2, MemPct: 25, Cmps: true, Monotone: 70,
+	Name: "C13-tree", MinOps: 2, MaxOps: 45, NColls: 2, MemPct: 25, Cmps: true, Monotone: 70, Framed: 20,
 	Kinds: []wk{{OpSet, 44}, {OpSetR, 4}, {OpDel, 16}, {OpFlush, 10}, {OpEvict, 8}, {OpReopen, 6}, {OpVisit, 4}},
 }
 
